@@ -148,6 +148,8 @@ def parse_reset(ctx_text):
             continue
         if re.match(r"^let num_rules = self\.compiled_rules\.num_rules\(\);$", s) or re.match(r"^let num_patterns = self\.compiled_rules\.num_patterns\(\);$", s):
             continue
+        if re.match(r"^self\.scan_id = SCAN_COUNTER\.fetch_add\(1, Ordering::Relaxed\) \+ 1;$", s):
+            out.append("S SNewScanId"); continue
         x = simple(s, where)
         if x:
             out.append("S (%s)" % x); continue
@@ -263,6 +265,8 @@ def ctx_effects(stmts, where, var="ctx"):
     """prologue statements `ctx.<...>` -> model statements; anything else touching ctx is an error"""
     out = []
     for s in stmts:
+        if s == "drop(user_provided_module_outputs);":
+            out.append("SDropUserOutputs"); continue
         if var + "." not in s and "self." not in s:
             continue
         yield_s = None
@@ -280,6 +284,8 @@ def ctx_effects(stmts, where, var="ctx"):
             yield_s = "SSetScanState 0"
         elif s == "ctx.user_provided_module_outputs.clear();":
             yield_s = "SClear ctx_user_provided_module_outputs"
+        elif s == "let mut user_provided_module_outputs = std::mem::take(&mut ctx.user_provided_module_outputs);":
+            yield_s = "STakeUserOutputs"
         elif s == "ctx.set_pattern_search_done(false);":
             yield_s = "SSetGlobalPsd false"
         elif s == "ctx.eval_conditions()?;":
@@ -292,23 +298,25 @@ def ctx_effects(stmts, where, var="ctx"):
             continue
         elif s.startswith("for module_name in ctx.compiled_rules.imports() {"):
             t = re.sub(r"\s+", "", s)
-            need = ["ctx.user_provided_module_outputs.remove(root_struct_name)", "module.main_fn(&mutmod_ctx,data)",
+            need = ["user_provided_module_outputs.remove(root_struct_name)", "module.main_fn(&mutmod_ctx,data)",
                     "ctx.module_outputs.insert(root_struct_name.to_string(),module_output)",
                     "ctx.root_struct.add_field(module_name,TypeValue::Struct(module_struct))"]
             for nd in need:
                 if nd not in t:
                     raise TranslateError(f"{where}: module loop changed (missing `{nd}`)")
             # order: user output is looked up before main_fn (else-if)
-            if not re.search(r"ifletSome\(output\)=ctx\.user_provided_module_outputs\.remove\(root_struct_name\)\{module_output=Some\(output\);\}elseifletSome\(main_res\)=module\.main_fn\(", t):
+            lm = re.search(r"ifletSome\(output\)=(ctx\.)?user_provided_module_outputs\.remove\(root_struct_name\)\{module_output=Some\(output\);\}elseifletSome\(main_res\)=module\.main_fn\(", t)
+            if not lm:
                 raise TranslateError(f"{where}: module loop: user-supplied output / main_fn alternative changed")
+            loop_uses_local = lm.group(1) is None
             early = "ScanError::ModuleError{" in t and "})?" in t
             # any other ctx mutation inside the loop?
             muts = re.findall(r"ctx\.([a-z_]+)\.(insert|remove|clear|push|add_field)\(", t)
-            allowed = {("user_provided_module_outputs", "remove"), ("module_outputs", "insert"), ("root_struct", "add_field")}
+            allowed = {("module_outputs", "insert"), ("root_struct", "add_field")} | (set() if loop_uses_local else {("user_provided_module_outputs", "remove")})
             extra = set(muts) - allowed
             if extra:
                 raise TranslateError(f"{where}: module loop mutates unexpected state: {sorted(extra)}")
-            yield_s = "SModuleLoop %s" % ("true" if early else "false")
+            yield_s = "SModuleLoop %s %s" % ("true" if early else "false", "true" if loop_uses_local else "false")
         else:
             raise TranslateError(f"{where}: statement not understood: `{s[:140]}`")
         out.append(yield_s)
@@ -365,22 +373,41 @@ def parse_blocks(blk_text):
             raise TranslateError("blocks::Scanner::finish: statement not understood in the needs_reset branch: " + t[:160])
     if "SCallReset" not in then_s:
         raise TranslateError("blocks::Scanner::finish: the needs_reset branch no longer resets")
-    want = ["self.needs_reset = true;", "let ctx = self.scan_context_mut();",
-            "ctx.eval_conditions()?;", "ctx.scan_state = ScanState::Finished(DataSnippets::MultiBlock( mem::take(&mut self.snippets), ));", "Ok(ScanResults::new(ctx))"]
-    if [x for x in fs[1:] if not x.startswith("#[cfg(yara_x_verif)]")] != want:
+    rest = [x for x in fs[1:] if not x.startswith("#[cfg(yara_x_verif)]")]
+    want_new = ["self.needs_reset = true;", "let ctx = self.scan_context_mut();", "let snippets = mem::take(&mut self.snippets);",
+                "ctx.eval_conditions()?;", "ctx.scan_state = ScanState::Finished(DataSnippets::MultiBlock(snippets));", "Ok(ScanResults::new(ctx))"]
+    want_old = ["self.needs_reset = true;", "let ctx = self.scan_context_mut();",
+                "ctx.eval_conditions()?;", "ctx.scan_state = ScanState::Finished(DataSnippets::MultiBlock( mem::take(&mut self.snippets), ));", "Ok(ScanResults::new(ctx))"]
+    head = ["SIfNeedsReset [%s] []" % "; ".join(then_s), "S (SAssign blk_needs_reset ITrue)"]
+    if rest == want_new:
+        fin_s = head + ["S STakeSnippets", "S SEval", "S (SSetScanState 4)"]
+    elif rest == want_old:
+        fin_s = head + ["S SEval", "S STakeSnippets", "S (SSetScanState 4)"]
+    else:
         raise TranslateError("blocks::Scanner::finish changed: " + " | ".join(fs)[:400])
-    fin_s = ["SIfNeedsReset [%s] []" % "; ".join(then_s), "S (SAssign blk_needs_reset ITrue)", "S SEval", "S STakeSnippets", "S (SSetScanState 4)"]
     m = re.search(r"impl<'r> From<crate::scanner::Scanner<'r>> for Scanner<'r> \{", impl)
     if not m:
         raise TranslateError("From<Scanner> for blocks::Scanner not found")
     fb = strip_comments(fn_body(impl, "from", "From<Scanner>", start=m.end()))
     fb = re.sub(r"\s+", "", fb)
-    if fb != "Self{_rules:scanner._rules,wasm_store:scanner.wasm_store,needs_reset:true,snippets:Default::default(),}":
-        raise TranslateError("From<Scanner> for blocks::Scanner changed: " + fb[:200])
+    lit = "Self{_rules:scanner._rules,wasm_store:scanner.wasm_store,needs_reset:true,snippets:Default::default(),}"
+    into_s = ["S (SAssign blk_needs_reset ITrue)", "S (SAssign blk_snippets IEmpty)"]
+    if fb == lit:
+        pass
+    elif fb.startswith("letmutscanner=" + lit + ";letctx=scanner.scan_context_mut();") and fb.endswith(";scanner"):
+        for t in fb[len("letmutscanner=" + lit + ";letctx=scanner.scan_context_mut();"):-len(";scanner")].split(";"):
+            if t == "ctx.set_filesize(-1)":
+                into_s.append("S SUndefFilesize")
+            elif t == "ctx.clear_module_structs()":
+                into_s.append("S SClearModuleStructs")
+            else:
+                raise TranslateError("From<Scanner> for blocks::Scanner: statement not understood: " + t[:120])
+    else:
+        raise TranslateError("From<Scanner> for blocks::Scanner changed: " + fb[:300])
     nb = re.sub(r"\s+", "", strip_comments(fn_body(impl, "new", "blocks::Scanner::new")))
     if nb != "Scanner{_rules:rules,wasm_store:create_wasm_store_and_ctx(rules),needs_reset:true,snippets:BTreeMap::new(),}":
         raise TranslateError("blocks::Scanner::new changed: " + nb[:200])
-    return scan_s + tail, fin_s
+    return scan_s + tail, fin_s, into_s
 
 
 def parse_timeout(ctx_text, wasm_text):
@@ -413,6 +440,64 @@ def parse_timeout(ctx_text, wasm_text):
     return dict(default=default, sets_timeout=sets_timeout, forces=forces, maps=maps, err_passthrough=err_passthrough, drains=drains)
 
 
+def fn_bodies(code):
+    """name -> body (whitespace removed) of every top-level `fn` in a module file"""
+    out = {}
+    for fm in re.finditer(r"\bfn\s+([a-z_0-9]+)\s*(<[^>]*>)?\s*\(", code):
+        try:
+            out[fm.group(1)] = re.sub(r"\s+", "", fn_body(code, fm.group(1), start=fm.start()))
+        except TranslateError:
+            pass
+    return out
+
+
+def scan_scoped(mod, code, caches):
+    """Which caches of the module are dropped when a function runs during a scan other than the one
+    that filled them (ScanContext::first_use_in_scan)?  Every function that touches such a cache must
+    make that check before touching it."""
+    c = re.sub(r"\s+", "", code)
+    if "first_use_in_scan" not in c:
+        return set()
+    if "staticCACHE_SCAN_ID:Cell<u64>=const{Cell::new(0)};" not in c:
+        raise TranslateError(f"module {mod}: first_use_in_scan without the CACHE_SCAN_ID thread-local")
+    bodies = fn_bodies(code)
+    guard = "ifctx.first_use_in_scan(&CACHE_SCAN_ID){"
+    holders = [n for n, b in bodies.items() if guard in b]
+    if len(holders) != 1:
+        raise TranslateError(f"module {mod}: expected exactly one function checking first_use_in_scan, found {holders}")
+    d = holders[0]
+    b = bodies[d]
+    i = b.index(guard) + len(guard) - 1
+    inner = b[i + 1:match_brace(b, i)]
+    clr = lambda name, text: (name + ".with(|cache|cache.borrow_mut().clear())") in text or (name + ".with(|cache|*cache.borrow_mut()=None)") in text
+    helper = None
+    hm = re.fullmatch(r"([a-z_0-9]+)\(\);", inner)
+    if hm:
+        helper = hm.group(1)
+        if helper not in bodies:
+            raise TranslateError(f"module {mod}: {helper}() called on a new scan is not defined in the module")
+        inner = bodies[helper]
+    scoped = {n for n in caches if clr(n, inner)}
+    if not scoped:
+        raise TranslateError(f"module {mod}: the first_use_in_scan branch clears no cache")
+    for fname, body in bodies.items():
+        if fname in ("main", helper):
+            continue
+        touched = [body.index(n + ".with(") for n in scoped if (n + ".with(") in body]
+        if not touched:
+            continue
+        first = min(touched)
+        if fname == d:
+            ok = body.index(guard) < first or body.index(guard) + len(guard) > first  # the clearing inside the guard itself
+            ok = body.index(guard) <= first
+        else:
+            call = d + "(ctx);"
+            ok = call in body and body.index(call) < first
+        if not ok:
+            raise TranslateError(f"module {mod}: fn {fname} reads a per-scan cache before checking first_use_in_scan")
+    return scoped
+
+
 def parse_thread_locals():
     root = os.path.join(REPO, "lib/src/modules")
     res = []
@@ -426,6 +511,7 @@ def parse_thread_locals():
             continue
         code = strip_comments(txt)
         mod = rel.split(os.sep)[0].replace(".rs", "")
+        found = []
         for m in re.finditer(r"thread_local!\s*[\(\{]", code):
             j = match_brace(code, m.end() - 1, code[m.end() - 1], ")" if code[m.end() - 1] == "(" else "}")
             blk = code[m.end():j]
@@ -433,11 +519,18 @@ def parse_thread_locals():
                 name, ty = sm.group(1), re.sub(r"\s+", "", sm.group(2))
                 if not (ty.startswith("RefCell<") or ty.startswith("Cell<")):
                     continue  # not mutable per-thread state (e.g. the libmagic cookie)
+                if name == "CACHE_SCAN_ID" and ty == "Cell<u64>":
+                    continue  # the tag saying which scan the module's caches belong to
                 try:
                     main = strip_comments(fn_body(code, "main"))
                 except TranslateError:
                     main = ""
                 mainc = re.sub(r"\s+", "", main)
+                bodies = fn_bodies(code)
+                # main may clear through a local helper (hash: clear_caches())
+                for hn, hb in bodies.items():
+                    if hn != "main" and re.search(r"(^|[;{}])" + hn + r"\(\);", mainc):
+                        mainc += hb
                 cleared = bool(re.search(re.escape(name) + r"\.with\(\|[a-z_]+\|(\*?[a-z_]+\.borrow_mut\(\)\.clear\(\)|\*[a-z_]+\.borrow_mut\(\)=None)\)", mainc)) \
                     or (name + ".set(None);") in mainc
                 if not cleared:
@@ -448,13 +541,14 @@ def parse_thread_locals():
                             continue
                         fb = re.sub(r"\s+", "", code[fm.end():match_brace(code, fm.end() - 1)])
                         if re.search(re.escape(name) + r"\.with\(\|[a-z_]+\|\{?\*[a-z_]+\.borrow_mut\(\)=", fb):
-                            # every `return`/tail of main must be preceded by a call: approximate by
-                            # "number of calls >= number of exits"
                             calls = len(re.findall(r"\b" + fname + r"\(", mainc))
                             exits = len(re.findall(r"return", mainc)) + 1
-                            if calls >= exits - 0 and calls > 0:
+                            if calls >= exits and calls > 0:
                                 cleared = True
-                res.append((mod, name, cleared))
+                found.append((name, cleared))
+        scoped = scan_scoped(mod, code, [n for n, _ in found])
+        for name, cleared in found:
+            res.append((mod, name, cleared, name in scoped))
     if not res:
         raise TranslateError("no module thread-locals found (expected hash/math/pe/...)")
     return res
@@ -490,11 +584,21 @@ def main():
     init.update({"scn_rules": 'IOther "rules"', "scn_wasm_store": 'IOther "store"', "scn_use_mmap": "ITrue", "scn_max_scan_size": "INone"})
     reset = parse_reset(ctx_text)
     scan_impl = parse_scan_impl(scn_text)
-    blk_scan, blk_fin = parse_blocks(blk_text)
+    blk_scan, blk_fin, into_s = parse_blocks(blk_text)
     init.update({"blk_rules": 'IOther "rules"', "blk_wasm_store": 'IOther "store"', "blk_needs_reset": "ITrue", "blk_snippets": "IEmpty"})
     for n in names:
         if n not in init:
             raise TranslateError(f"no creation-time value found for field {n}")
+    if "S SClearModuleStructs" in into_s:
+        cb = re.sub(r"\s+", "", strip_comments(fn_body(ctx_text, "clear_module_structs")))
+        for need in ("formodule_nameinself.compiled_rules.imports(){", "Struct::from_proto_descriptor_and_msg(&module.root_descriptor(),None,",
+                     "self.root_struct.add_field(module_name,TypeValue::Struct(module_struct));"):
+            if need not in cb:
+                raise TranslateError("ScanContext::clear_module_structs changed (missing `%s`)" % need)
+    if "S SNewScanId" in reset:
+        fb = re.sub(r"\s+", "", strip_comments(fn_body(ctx_text, "first_use_in_scan")))
+        if fb != "last_scan_id.with(|id|id.replace(self.scan_id)!=self.scan_id)":
+            raise TranslateError("ScanContext::first_use_in_scan changed: " + fb[:200])
     tmo = parse_timeout(ctx_text, wasm_text)
     tls = parse_thread_locals()
 
@@ -515,8 +619,11 @@ Inductive sstmt :=
 | SClear (f : field) | SAssign (f : field) (v : ival) | SDrain (src dst : field)
 | SFillBitmaps (rules patterns : bool)
 | SSetDeadline | SSetEpochDeadline | SSetEpochCallback | SStartHeartbeatIfTimeout
-| SCallReset | SSetGlobalFilesize | SSetGlobalPsd (b : bool) | SSetScanState (tag : N)
-| SModuleLoop (early_return_on_module_error : bool)
+| SNewScanId
+| SCallReset | SSetGlobalFilesize | SUndefFilesize | SClearModuleStructs
+| SSetGlobalPsd (b : bool) | SSetScanState (tag : N)
+| STakeUserOutputs | SDropUserOutputs
+| SModuleLoop (early_return_on_module_error : bool) (user_outputs_in_local : bool)
 | SSearch | SEval | SCollectSnippets | STakeSnippets.
 Inductive stmt :=
 | S (s : sstmt)
@@ -526,7 +633,7 @@ Inductive stmt :=
     o.append("(* Scanner::scan_impl: everything up to eval_conditions, then the epilogue *)\nDefinition scan_impl_body : list stmt :=\n  [ " + ";\n    ".join("S (%s)" % s for s in scan_impl) + " ]%N.")
     o.append("(* blocks::Scanner::scan *)\nDefinition block_scan_body : list stmt :=\n  [ " + ";\n    ".join(blk_scan) + " ]%N.")
     o.append("(* blocks::Scanner::finish *)\nDefinition block_finish_body : list stmt :=\n  [ " + ";\n    ".join(blk_fin) + " ]%N.")
-    o.append("(* From<Scanner> for blocks::Scanner: the store is moved as is *)\nDefinition into_blocks_body : list stmt :=\n  [ S (SAssign blk_needs_reset ITrue); S (SAssign blk_snippets IEmpty) ].")
+    o.append("(* From<Scanner> for blocks::Scanner *)\nDefinition into_blocks_body : list stmt :=\n  [ " + ";\n    ".join(into_s) + " ].")
     o.append(f"""(* timeouts *)
 Definition DEFAULT_SCAN_TIMEOUT : N := {tmo['default']}%N.
 Definition ac_search_poll_sites : N := 2%N.   (* `HEARTBEAT_COUNTER >= self.deadline` before every handle_atom_match *)
@@ -535,12 +642,13 @@ Definition host_search_forces_epoch_deadline_zero : bool := {str(tmo['forces']).
 Definition eval_maps_state_timeout_to_error : bool := {str(tmo['maps']).lower()}.
 Definition eval_passes_wasm_timeout_error : bool := {str(tmo['err_passthrough']).lower()}.
 Definition eval_drains_matching_rules_before_result : bool := {str(tmo['drains']).lower()}.""")
-    tl_names = [f"tl_{m}_{n}" for m, n, _ in tls]
+    tl_names = [f"tl_{m}_{n}" for m, n, _, _ in tls]
     o.append("(* per-thread caches of the modules (thread_local! RefCell/Cell statics) *)\nInductive tl_cache : Set :=\n" + "\n".join("| " + n for n in tl_names) + ".")
     o.append("Scheme Equality for tl_cache.")
     o.append("Definition all_tl_caches : list tl_cache :=\n  [" + "; ".join(tl_names) + "].")
-    o.append("Definition tl_module (t : tl_cache) : string :=\n  match t with\n" + "\n".join(f'  | tl_{m}_{n} => "{m}"' for m, n, _ in tls) + "\n  end.")
-    o.append("(* is the cache re-initialised by the module's main function? *)\nDefinition tl_cleared_by_main (t : tl_cache) : bool :=\n  match t with\n" + "\n".join(f"  | tl_{m}_{n} => {str(c).lower()}" for m, n, c in tls) + "\n  end.")
+    o.append("Definition tl_module (t : tl_cache) : string :=\n  match t with\n" + "\n".join(f'  | tl_{m}_{n} => "{m}"' for m, n, _, _ in tls) + "\n  end.")
+    o.append("(* is the cache re-initialised by the module's main function? *)\nDefinition tl_cleared_by_main (t : tl_cache) : bool :=\n  match t with\n" + "\n".join(f"  | tl_{m}_{n} => {str(c).lower()}" for m, n, c, _ in tls) + "\n  end.")
+    o.append("(* is the cache dropped whenever one of the module's functions runs during a scan other than the\n   one that filled it (ScanContext::first_use_in_scan, checked before every access)? *)\nDefinition tl_scan_scoped (t : tl_cache) : bool :=\n  match t with\n" + "\n".join(f"  | tl_{m}_{n} => {str(sc).lower()}" for m, n, _, sc in tls) + "\n  end.")
     write_if_changed("ScanState.v", "\n\n".join(o) + "\n")
 
 
